@@ -825,7 +825,10 @@ finish_acquisition(Ctx& x, bool by_abort, const char* how)
                 check_averaging(x, a, true);
             else {
                 // follow-up acquisitions after an abort / a fault are judged on behalf of C07 / C09 too
-                check_storage_vs_camera(x, a, x.taint, a.cfg.nframes >= 0, false);
+                // "its presence or pace never changes what reaches storage": with a monitor attached the
+                // storage comparison is made on behalf of C06 in C06 runs
+                const char* sp = (vh_focus && !strcmp(vh_focus, "C06") && x.mon[a.stream].registered && !strcmp(x.taint, "C04")) ? "C06" : x.taint;
+                check_storage_vs_camera(x, a, sp, a.cfg.nframes >= 0, false);
                 if (a.wraps >= 3 && (x.c.has(CL_SINK_CAUGHT_UP_AT_WRAP) || x.c.has(CL_SOURCE_BLOCKED) || x.c.has(CL_MONITOR_LAG) || a.cfg.write_delay_ms > 0))
                     x.c.nontrivial(P_C04);
             }
@@ -943,6 +946,45 @@ do_map(Ctx& x, int s)
             x.c.fail("C06", "monitor-sequence", id > frames[i - 1]->frame_id + 1 ? "gap" : "repeat", "stream %d: frame id %llu follows %llu inside one mapped region", s,
                           (unsigned long long)id, (unsigned long long)frames[i - 1]->frame_id);
             return;
+        }
+    }
+    if (averaged && a.cam && !x.c.ended) {
+        int kwin = a.cfg.avg;
+        std::vector<vmock::Delivered> del = delivered_of(a.cam, a.cam_run);
+        for (const VideoFrame* f : frames) {
+            if (f->shape.type != SampleType_f32) {
+                x.c.fail_soft("C10", "avg-shape", "monitor", "stream %d: the monitor received a frame of type %d on an averaging stream", s, (int)f->shape.type);
+                break;
+            }
+            uint64_t first = f->frame_id;
+            if (first % (uint64_t)kwin != 0 || first + kwin > del.size())
+                continue; // trailing / partial window or not yet known: not judged here
+            size_t npx = (size_t)f->shape.strides.planes;
+            size_t bp = vmock::bpp(del[first].shape.type);
+            const float* px = (const float*)f->data;
+            bool bad = false;
+            for (size_t p = 0; p < npx && !bad; ++p) {
+                double sum = 0;
+                for (int q = 0; q < kwin; ++q) {
+                    const vmock::Delivered& d = del[first + q];
+                    uint8_t r0 = vmock::prf(vmock::hub.salt, a.cam->idx, a.cam_run, d.k, p * bp);
+                    uint8_t r1 = bp > 1 ? vmock::prf(vmock::hub.salt, a.cam->idx, a.cam_run, d.k, p * bp + 1) : (uint8_t)0;
+                    switch (del[first].shape.type) {
+                        case SampleType_u8: sum += r0; break;
+                        case SampleType_i8: sum += (int8_t)r0; break;
+                        case SampleType_i16: sum += (int16_t)(r0 | (r1 << 8)); break;
+                        default: sum += (uint16_t)(r0 | (r1 << 8)); break;
+                    }
+                }
+                double mean = sum / kwin;
+                if (!(std::fabs((double)px[p] - mean) <= std::fabs(mean) * 4e-7 + 1e-4)) {
+                    x.c.fail_soft("C10", "avg-pixel", "monitor", "stream %d: averaged frame id %llu seen by the monitor has pixel %zu = %.9g; the mean of the %d inputs is %.9g", s,
+                                  (unsigned long long)first, p, (double)px[p], kwin, mean);
+                    bad = true;
+                }
+            }
+            if (bad)
+                break;
         }
     }
     m.frames_seen += frames.size();
